@@ -60,6 +60,9 @@ def run(ctx):
         eng.mutation_schedules(topo, spec, muts, invariant='C01', bounds=bounds, timeout=600)
     for topo, spec, num, depth in sc['conf']:
         eng.conformance(topo, spec, num, depth)
+    eng.cover(topos.join2(maxseq=0), 'SpecPrompt', max_paths=150 if ctx.quick else None)
+    if not ctx.quick:
+        eng.cover(topos.tee_rejoin2(maxseq=1), 'SpecZL', max_paths=6000)
     for topo, n, steps, pt, pd in sc['rand']:
         eng.random_runs(topo, n, steps, p_timeout=pt, p_drop=pd, tag='rand', validate=3 if ctx.quick else 25)
     return rep.finish()
